@@ -11,7 +11,7 @@ CASES_HEADER = "Require Import Nib.C16.Model Nib.C16.Spec Nib.C16.Check."
 CASE_TYPE = "case"
 MISMATCH_FN = "mismatch"
 VIOLATES_FN = "violates"
-RULE = ("case = world (sudo root, 0-4 sudo contracts, 0-4 authz grants saved through real MsgGrant txs) + 3-10 txs of 0-3 "
+RULE = ("case = world (22 % of the generated cases: a fresh chain started from a GENERATED sudo genesis — 0-7 contracts in random order with duplicates, root listed or not — followed by gated ops of all four kinds from every account before any edit, after a root hand-over and after an edit; otherwise sudo root, 0-4 sudo contracts, 0-4 authz grants saved through real MsgGrant txs) + 3-10 txs of 0-3 "
         "messages (MsgEditSudoers add/remove/unknown action/malformed contract, MsgChangeRoot, MsgEditOracleParams, "
         "MsgEditInflationParams valid/invalid, MsgToggleInflation, MsgSudoSetDenomMetadata valid/invalid, MsgExec trees up "
         "to depth 2) signed by root / listed / removed / former-root / unrelated accounts, each delivered through DeliverTx; "
@@ -55,10 +55,10 @@ def _kind(k):
 
 def to_coq_case(rec):
     i = rec["input"]
-    w = "{| w_root := %d; w_contracts := %s; w_grants := [%s] |}" % (
+    w = "{| w_root := %d; w_contracts := %s; w_grants := [%s]; w_raw := %s |}" % (
         i["root"], _nats(i.get("contracts") or []),
         "; ".join("{| g_granter := %d; g_grantee := %d; g_kind := %s |}" % (g["granter"], g["grantee"], _kind(g["kind"]))
-                  for g in (i.get("grants") or [])))
+                  for g in (i.get("grants") or [])), _b(i.get("genesis")))
     steps = []
     for tx, o in zip(i["txs"], rec["obs"]):
         ob = ("{| o_ok := %s; o_root := %d; o_contracts := %s; o_same_sudo := %s; o_same_oracle := %s; "
@@ -100,7 +100,7 @@ def nontrivial(rec):
 
 
 def classify(rec):
-    ks = ["txs=%d" % len(rec["input"]["txs"]), "grants=%d" % len(rec["input"].get("grants") or []),
+    ks = ["sudoers-from-genesis" if rec["input"].get("genesis") else "sudoers-written-canonical", "txs=%d" % len(rec["input"]["txs"]), "grants=%d" % len(rec["input"].get("grants") or []),
           "contracts=%d" % len(set(rec["input"].get("contracts") or []))]
     for tx, o in zip(rec["input"]["txs"], rec["obs"]):
         ks.append("tx:%s" % ("accepted" if o["ok"] else "rejected"))
